@@ -6,11 +6,11 @@ set -e
 D="$1"; ID="$2"; shift 2
 WT=$(mktemp -d /tmp/seedtry.XXXXXX)
 git -C /repo worktree add -q -f "$WT" HEAD
+trap 'git -C /repo worktree remove --force "$WT" 2>/dev/null' EXIT
+case "$D" in /*) ;; *) D="$(pwd)/$D";; esac
 git -C "$WT" apply "$D/patch.diff"
 cd /verif
 set +e
 VERIF_REPO="$WT" ./check "$ID" --no-evidence "$@"
 RC=$?
-set -e
-git -C /repo worktree remove --force "$WT"
 exit $RC
